@@ -180,6 +180,15 @@ func validateMXIDMappingSignatures(ctx context.Context, e PDU, mapping MXIDMappi
 		return err
 	}
 
+	// The mapping ties the room key to a user: it has to be signed by that user's server.
+	_, userServer, err := SplitID('@', mapping.UserID)
+	if err != nil {
+		return fmt.Errorf("invalid user ID in MXIDMapping: %w", err)
+	}
+	if len(mapping.Signatures[userServer]) == 0 {
+		return fmt.Errorf("MXIDMapping is not signed by %q", userServer)
+	}
+
 	var toVerify []VerifyJSONRequest
 	for s := range mapping.Signatures {
 		v := VerifyJSONRequest{
